@@ -41,16 +41,23 @@ func HarnessC20Delay() {
 	genKind := vrt.Int("gen", 0, 2) // 0 absent, 1 present, 2 failing
 	allow := vrt.Bool("AllowNoDelay")
 	inner := &c20Pub{fail: vrt.Bool("inner.fails")}
-	genDelay := For(3 * time.Second)
+	// the default generator's answer depends on the message: 3s for u0, 5s for the others; when it is
+	// a failing generator it fails for the message with index genFailAt only
+	genDelays := []Delay{For(3 * time.Second), For(5 * time.Second)}
+	genFailAt := vrt.Int("gen.fail.at", 0, 1)
 	genCalls := 0
 	cfg := PublisherConfig{AllowNoDelay: allow}
 	if genKind > 0 {
 		cfg.DefaultDelayGenerator = func(p DefaultDelayGeneratorParams) (Delay, error) {
 			genCalls++
-			if genKind == 2 {
+			idx := 1
+			if p.Message.UUID == "u0" {
+				idx = 0
+			}
+			if genKind == 2 && idx == genFailAt {
 				return Delay{}, errScripted
 			}
-			return genDelay, nil
+			return genDelays[idx], nil
 		}
 	}
 	pub, err := NewPublisher(inner, cfg)
@@ -91,7 +98,7 @@ func HarnessC20Delay() {
 	expectErr := false
 	for i := 0; i < n && !expectErr; i++ {
 		if src[i] == 0 {
-			if genKind == 2 || (genKind == 0 && !allow) {
+			if (genKind == 2 && i == genFailAt) || (genKind == 0 && !allow) {
 				expectErr = true
 			}
 		}
@@ -121,8 +128,8 @@ func HarnessC20Delay() {
 		case 2, 3:
 			vrt.Assert(df == ctxDelay[i].duration.String() && du == ctxDelay[i].time.Format(time.RFC3339), "the delay from the message context is stamped; delayed-for and delayed-until come from the same Delay")
 		case 0:
-			if genKind == 1 {
-				vrt.Assert(df == genDelay.duration.String() && du == genDelay.time.Format(time.RFC3339), "otherwise the default generator's delay is stamped")
+			if genKind >= 1 {
+				vrt.Assert(df == genDelays[i].duration.String() && du == genDelays[i].time.Format(time.RFC3339), "otherwise the delay the default generator gives for this very message is stamped")
 			} else {
 				vrt.Assert(df == "" && du == "", "AllowNoDelay: the message passes without a stamp")
 			}
